@@ -170,5 +170,6 @@ void set_op_namer(const char *(*namer)(int));
 int tsan_report_count();
 
 const char *flavour_name();
+int tls_virtualised_variables();  // thread_local variables of the library saved/restored per task
 
 }  // namespace sim
